@@ -33,6 +33,13 @@ quantities of the property are compared with the model exactly as for the conven
 that keeps both arcs of every undirected edge reports every complex vector doubled, which is a
 violation of "the complexes are exactly the reactant and product multisets" and is reported with the
 class `undirected-input-complex-vectors-doubled`).
+
+Helpers called directly (stream `direct`, see the block comment above `build_direct`): `_complex_vectors(G)` on the
+bipartite graph AS GIVEN in each of the four NetworkX classes (its undirected branch is never reached through
+compute_summary, which hands it what `_as_bipartite` returns), `_is_weakly_reversible` on the complex graph it returns,
+`_linkage_class_stoich_rank` on every linkage class handed over as any kind of iterable, on the empty class and on a
+fresh analyzer; input graphs also written by `hypergraph_to_bipartite` with non-default options, and graphs carrying
+nodes / arcs that are not part of the species-reaction network; analyzer option `rank_fn=None`.
 """
 import hashlib
 import itertools
@@ -686,6 +693,8 @@ def _make_analyzer(obj, opt):
         return DeficiencyAnalyzer(obj, stoich_fn=lambda g: stoichiometric_matrix(g).tolist())
     if opt == "rank_lambda":
         return DeficiencyAnalyzer(obj, rank_fn=lambda g: int(np.linalg.matrix_rank(stoichiometric_matrix(g))))
+    if opt == "rank_none":  # direct stream only: the caller switches the rank computation off (stoich_rank is reported as 0)
+        return DeficiencyAnalyzer(obj, rank_fn=None)
     raise InvalidSession("unknown option " + str(opt))
 
 
@@ -1170,6 +1179,454 @@ def replace_session(rnd, full, small):
             + [{"op": "q", "an": "a0", "m": second}, {"op": "q", "an": "a0", "m": "crn"}]}
 
 
+# ================================================================ helpers called directly / exporter graphs / foreign nodes
+# A "direct" case is a replayable JSON value:
+#   {"desc": description, "source": "net" | "export", "flavor": {...} (source net: attribute spelling, orientation,
+#    graph class as in the sessions), "export": {...keyword options of hypergraph_to_bipartite...}, "wrap": graph
+#    class the exported DiGraph is rewritten into (source export), "junk": None | {"nodes": [[name, attrs]],
+#    "edges": [[end, end, attrs]]} with end = ["R", k] (k-th reaction node) | ["S", k] (k-th species node) |
+#    ["J", name], "opt": analyzer option, "iter": how a linkage class is handed to _linkage_class_stoich_rank}
+# What is compared (expected values: the Lean model `def.analyse` of the network; classification by `oracle`):
+#   A  `an._complex_vectors(G)` on the graph AS GIVEN (an undirected Graph / MultiGraph reaches the helper's own
+#      undirected branch, which compute_summary never does because `_as_bipartite` hands it a directed graph):
+#      complex list (no duplicates, idx_map consistent), complex graph, its components, and
+#      `DeficiencyAnalyzer._is_weakly_reversible(CG)`;
+#   B  the full analysis compute_crn_deficiency() (new here: graphs written by the library's own exporter with
+#      non-default options, rewritten into the four NetworkX classes);
+#   C  `an._linkage_class_stoich_rank(C)` for every linkage class C, handed over as list / set / tuple / generator /
+#      reversed list (the parameter is documented as an Iterable): s_l = n_l - 1 - delta_l of the model (delta_l
+#      from exact ranks); the empty class: 0 (rank of an empty family) or an exception; on a fresh analyzer:
+#      an exception (documented RuntimeError) or the right rank - never another number.
+# Graphs with "junk" (nodes that are neither species nor reaction, arcs that do not join a species to a reaction -
+# what stoich.build_S_minus_plus documents as ignored and `_complex_vectors` skips): the network is the
+# species/reaction part; an analyzer may refuse such a graph (any exception: counted, nothing demanded), but an
+# answer must be the answer for the network.
+ITERS = ("list", "set", "tuple", "gen", "reversed")
+EXPORT_KEYS = ("integer_ids", "species_prefix", "reaction_prefix", "include_edge_id_attr", "include_isolated_species", "include_mol")
+
+
+def _node_kind(attrs):
+    """species / reaction / None by the documented marks (own reading, not the library's)."""
+    if attrs.get("kind") == "species" or attrs.get("bipartite", None) == 0:
+        return "species"
+    if attrs.get("kind") == "reaction" or attrs.get("bipartite", None) == 1:
+        return "reaction"
+    return None
+
+
+def read_graph(G):
+    """The network a bipartite graph spells, read off with plain NetworkX calls: (sorted species labels,
+    [[sorted reactants, sorted products]] per reaction node in node order) or a message."""
+    sp = {n: str(a.get("label", n)) for n, a in G.nodes(data=True) if _node_kind(a) == "species"}
+    out = []
+    for n, a in G.nodes(data=True):
+        if _node_kind(a) != "reaction":
+            continue
+        inc = (list(G.in_edges(n, data=True)) + list(G.out_edges(n, data=True))) if G.is_directed() else list(G.edges(n, data=True))
+        inc = [(v if u == n else u, d) for u, v, d in inc]
+        inc = [(x, d) for x, d in inc if x in sp]
+        if any(d.get("role") not in ("reactant", "product") for _, d in inc):
+            return None, f"arc without a role at reaction node {n!r}"
+        out.append([sorted([sp[x], int(d.get("stoich", 1))] for x, d in inc if d["role"] == "reactant"),
+                    sorted([sp[x], int(d.get("stoich", 1))] for x, d in inc if d["role"] == "product")])
+    return (sorted(sp.values()), out), None
+
+
+def build_direct(dc):
+    """-> (graph as handed to the analyzer, network JSON for the model, description for the oracle, encoding message)."""
+    import networkx as nx
+
+    desc = {"reactions": [_copy_rxn(r) for r in dc["desc"]["reactions"]], "isolated": list(dc["desc"].get("isolated", []))}
+    if dc["source"] == "net":
+        n = _Net("bip", dc.get("flavor"))
+        for r in desc["reactions"]:
+            n.edit({"op": "add", "rxn": r})
+        for s in desc["isolated"]:
+            if s not in n.desc["isolated"] and s not in _used(n.desc):
+                n.edit({"op": "iso", "sp": s})
+        G, net, odesc = n.obj, n.net_json(), n.desc
+    elif dc["source"] == "export":
+        from synkit.CRN.Hypergraph.conversion import hypergraph_to_bipartite
+        opts = dict(dc.get("export") or {})
+        if set(opts) - set(EXPORT_KEYS) or dc.get("wrap", "DiGraph") not in GTYPES:
+            raise InvalidSession("exporter option / graph class")
+        if not netio.well_formed(desc):
+            raise InvalidSession("malformed network")
+        D = hypergraph_to_bipartite(netio.to_hypergraph(desc), **opts)
+        odesc = dict(desc, isolated=[] if opts.get("include_isolated_species") is False else desc["isolated"])
+        net = netio.to_net_json(odesc)
+        w = dc.get("wrap", "DiGraph")
+        if w == "DiGraph":
+            G = D
+        else:  # the same nodes and arcs (with their attributes), one edge per arc, in another NetworkX class
+            if w == "Graph" and any({s for s, _ in r["r"]} & {s for s, _ in r["p"]} for r in net["reactions"]):
+                raise InvalidSession("an undirected simple graph cannot hold a species on both sides of one reaction")
+            G = getattr(nx, w)()
+            G.add_nodes_from(D.nodes(data=True))
+            G.add_edges_from(D.edges(data=True))
+    else:
+        raise InvalidSession("unknown source")
+    got, msg = read_graph(G)
+    if msg is None:
+        want = (net["species"], [[sorted(r["r"]), sorted(r["p"])] for r in net["reactions"]])
+        if got[0] != want[0] or (got[1] != want[1] if dc["source"] == "net" else sorted(got[1]) != sorted(want[1])):
+            msg = f"graph spells {got}, description says {want}"
+    junk = dc.get("junk")
+    if junk:
+        G = G.copy()
+        spn = [n for n, a in G.nodes(data=True) if _node_kind(a) == "species"]
+        rn = [n for n, a in G.nodes(data=True) if _node_kind(a) == "reaction"]
+        names = {}
+        for name, attrs in junk["nodes"]:
+            if _node_kind(attrs) is not None or name in G:
+                raise InvalidSession("junk node")
+            names[name] = name
+            G.add_node(name, **attrs)
+
+        def end(e):
+            t, k = e
+            if t == "J":
+                return names[k]
+            pool = rn if t == "R" else spn
+            if not pool:
+                raise InvalidSession("junk end")
+            return pool[int(k) % len(pool)]
+        for a, b, attrs in junk["edges"]:
+            if {a[0], b[0]} == {"R", "S"}:
+                raise InvalidSession("a species-reaction arc is not junk")
+            u, v = end(a), end(b)
+            if u == v or (not G.is_multigraph() and (G.has_edge(u, v) or G.has_edge(v, u))):
+                continue
+            G.add_edge(u, v, **attrs)
+    return G, net, odesc, msg
+
+
+def _components(CG):
+    import networkx as nx
+    return [sorted(int(x) for x in c) for c in nx.connected_components(CG.to_undirected())]
+
+
+def exec_direct(dc):
+    """Run one direct case against the implementation -> observation dict (see the block comment above)."""
+    from synkit.CRN.Props.deficiency import DeficiencyAnalyzer
+
+    G, net, odesc, enc = build_direct(dc)
+    junk = bool(dc.get("junk"))
+    ob = {"net": net, "desc": odesc, "enc": enc, "junk": junk, "opt": dc.get("opt", "default"), "undirected": not G.is_directed(), "multi": G.is_multigraph()}
+    opt = dc.get("opt", "default")
+    # A: the helper on the graph as given
+    try:
+        an = _make_analyzer(G, opt)
+        cs, idx, CG = an._complex_vectors(G)
+        cs = [tuple(int(x) for x in c) for c in cs]
+        ob["A"] = {"complexes": cs, "arcs": sorted([int(u), int(v)] for u, v in CG.edges()), "nodes": sorted(int(x) for x in CG.nodes()),
+                   "classes": _components(CG), "weakly_reversible": bool(DeficiencyAnalyzer._is_weakly_reversible(CG)),
+                   "idx_ok": len(idx) == len(cs) and all(idx.get(c) == k for k, c in enumerate(cs))}
+    except Exception as e:  # noqa: BLE001 - any exception is an observation
+        ob["A"] = {"error": type(e).__name__}
+    # B: the full analysis
+    an = _make_analyzer(G, opt)
+    try:
+        an.compute_crn_deficiency()
+        ob["B"] = observe(an)
+    except Exception as e:  # noqa: BLE001
+        ob["B"] = {"error": type(e).__name__}
+        return ob
+    # C: per-class rank helper, same analyzer, classes of its own complex graph
+    how = dc.get("iter", "list")
+    if how not in ITERS:
+        raise InvalidSession("iter")
+
+    def hand(C):
+        C = [int(x) for x in C]
+        return {"list": C, "set": set(C), "tuple": tuple(C), "gen": (x for x in C), "reversed": list(reversed(C))}[how]
+    ranks = []
+    for C in ob["B"]["classes"]:
+        try:
+            ranks.append(int(an._linkage_class_stoich_rank(hand(C))))
+        except Exception as e:  # noqa: BLE001
+            ranks.append(type(e).__name__)
+    try:
+        empty = int(an._linkage_class_stoich_rank(hand([])))
+    except Exception as e:  # noqa: BLE001
+        empty = type(e).__name__
+    fresh = None
+    if ob["B"]["classes"]:
+        try:
+            fresh = int(_make_analyzer(G, opt)._linkage_class_stoich_rank(hand(ob["B"]["classes"][0])))
+        except Exception as e:  # noqa: BLE001
+            fresh = type(e).__name__
+    ob["C"] = {"ranks": ranks, "empty": empty, "fresh": fresh}
+    return ob
+
+
+def direct_check(ob, want):
+    """-> None or a message.  `want`: the definition's answer in canon() form keyed by content, i.e.
+    {"error": ...} or {"complexes": sorted vectors, "arcs": sorted pairs, "classes": sorted classes,
+    "weakly_reversible", "summary", "linkage": [(class, delta_l)], "full": canon dict for diff()}."""
+    junk = ob["junk"]
+    A, B = ob["A"], ob["B"]
+    # ---- A
+    if "error" in A:
+        if not junk and A["error"] != want.get("error"):
+            return f"_complex_vectors on the graph as given raised {A['error']}, the definition gives {want.get('error', 'a result')}"
+    elif "error" in want:
+        return f"_complex_vectors on the graph as given returned complexes {A['complexes']}, the definition gives {want['error']}"
+    else:
+        cs = A["complexes"]
+        if len(set(cs)) != len(cs) or not A["idx_ok"] or A["nodes"] != list(range(len(cs))):
+            return f"_complex_vectors: complex list {cs} with duplicates / index map or complex-graph nodes {A['nodes']} inconsistent with it"
+        if sorted(cs) != want["complexes"]:
+            return f"_complex_vectors on the graph as given: complexes {sorted(cs)}, the definition gives {want['complexes']}"
+        if sorted((cs[u], cs[v]) for u, v in A["arcs"]) != want["arcs"]:
+            return f"_complex_vectors on the graph as given: complex-graph arcs {sorted((cs[u], cs[v]) for u, v in A['arcs'])}, the definition gives {want['arcs']}"
+        if sorted(sorted(cs[i] for i in C) for C in A["classes"]) != want["classes"]:
+            return "_complex_vectors on the graph as given: components of the complex graph are not the linkage classes"
+        if A["weakly_reversible"] != want["weakly_reversible"]:
+            return f"_is_weakly_reversible(complex graph) = {A['weakly_reversible']}, the definition gives {want['weakly_reversible']}"
+    # ---- B
+    if "error" in B:
+        if not junk and B["error"] != want.get("error"):
+            return f"compute_crn_deficiency raised {B['error']}, the definition gives {want.get('error', 'a result')}"
+        return None
+    if "error" in want:
+        return f"compute_crn_deficiency returned {B['summary']}, the definition gives {want['error']}"
+    cb = canon(B)
+    if ob.get("opt") == "rank_none":
+        # rank_fn=None: the analyzer is told not to compute a rank; what C19 says about the rank is not demanded, the formula
+        # is (with the rank as reported), and every other quantity is compared as usual
+        s = B["summary"]
+        if s["deficiency"] != s["n_complexes"] - s["n_linkage_classes"] - s["stoich_rank"]:
+            return f"rank_fn=None: deficiency {s['deficiency']} != n_complexes - n_linkage_classes - reported rank ({s})"
+        r = want["summary"]["stoich_rank"]
+        cb = dict(cb, summary=dict(cb["summary"], stoich_rank=r, deficiency=s["n_complexes"] - s["n_linkage_classes"] - r))
+    df = diff(cb, want["full"])
+    if df is not None:
+        return "compute_crn_deficiency: " + df
+    # ---- C
+    cs = B["complexes"]
+    dl = {tuple(C): d for C, d in want["linkage"]}
+    exp = []
+    for C in B["classes"]:
+        key = tuple(sorted(cs[i] for i in C))
+        exp.append(len(C) - 1 - dl[key])
+    Cc = ob["C"]
+    if Cc["ranks"] != exp:
+        return f"_linkage_class_stoich_rank per linkage class = {Cc['ranks']}, exact ranks of the class difference vectors = {exp}"
+    if isinstance(Cc["empty"], int) and Cc["empty"] != 0:
+        return f"_linkage_class_stoich_rank(empty class) = {Cc['empty']}, the rank of an empty family is 0"
+    if isinstance(Cc["fresh"], int) and Cc["fresh"] != exp[0]:
+        return f"_linkage_class_stoich_rank on an analyzer that has computed nothing returned {Cc['fresh']} (exact rank {exp[0]})"
+    return None
+
+
+def want_from_model(model):
+    if "error" in model:
+        return {"error": model["error"]}
+    cm = canon(model)
+    return {"complexes": cm["complexes"], "arcs": cm["arcs"], "classes": cm["classes"], "weakly_reversible": cm["summary"]["weakly_reversible"],
+            "summary": cm["summary"], "linkage": cm["linkage"], "full": cm}
+
+
+def want_from_oracle(desc):
+    """The same shape from the definition oracle (classification and shrinking only; exact ranks, no Lean)."""
+    o = oracle(desc)
+    if "error" in o:
+        return o
+    summ = {k: o[k] for k in ("n_species", "n_reactions", "n_complexes", "n_linkage_classes", "stoich_rank", "deficiency", "weakly_reversible")}
+    link = sorted((sorted(C), d) for C, d in o["linkage"].items())
+    full = {"complexes": sorted(o["complexes"]), "dup": False, "arcs": sorted(o["arcs"]), "classes": sorted(sorted(C) for C in o["classes"]),
+            "summary": summ, "as_dict_summary": True, "as_dict_linkage": True, "linkage": link}
+    return {"complexes": full["complexes"], "arcs": full["arcs"], "classes": full["classes"], "weakly_reversible": o["weakly_reversible"],
+            "summary": summ, "linkage": link, "full": full}
+
+
+def direct_failure(dc):
+    """-> message when the implementation's answers on this direct case violate the definitions (oracle), else None."""
+    try:
+        ob = exec_direct(dc)
+    except Exception:  # noqa: BLE001 - an invalid candidate of the shrinker
+        return None
+    if ob["enc"] is not None:
+        return None
+    return direct_check(ob, want_from_oracle(ob["desc"]))
+
+
+def shrink_direct(dc):
+    def fails(rs):
+        return bool(rs) and direct_failure(dict(dc, desc=dict(dc["desc"], reactions=rs))) is not None
+    small = dict(dc, desc=dict(dc["desc"], reactions=shrink_seq(dc["desc"]["reactions"], fails, budget=60)))
+    for key, val in (("junk", None), ("flavor", {}), ("export", {}), ("wrap", "DiGraph"), ("opt", "default"), ("iter", "list")):
+        if small.get(key) not in (None, val):
+            cand = dict(small, **{key: val})
+            if direct_failure(cand) is not None:
+                small = cand
+    for key in sorted(small.get("flavor") or {}):
+        fl = {k: v for k, v in small["flavor"].items() if k != key}
+        if key != "oseed" and direct_failure(dict(small, flavor=fl)) is not None:
+            small = dict(small, flavor=fl)
+    if small.get("junk"):
+        def fails_junk(es):
+            return direct_failure(dict(small, junk=dict(small["junk"], edges=es))) is not None
+        es = shrink_seq(small["junk"]["edges"], fails_junk, budget=30)
+        names = {e[1] for a, b, _ in es for e in (a, b) if e[0] == "J"}
+        small = dict(small, junk={"nodes": [n for n in small["junk"]["nodes"] if n[0] in names], "edges": es})
+    if small["desc"].get("isolated") and direct_failure(dict(small, desc=dict(small["desc"], isolated=[]))) is not None:
+        small = dict(small, desc=dict(small["desc"], isolated=[]))
+    return small
+
+
+def fmt_direct(dc):
+    if dc["source"] == "net":
+        how = f"hand-built bipartite graph, flavor={dc.get('flavor') or {}}"
+    else:
+        how = f"hypergraph_to_bipartite(H, {dc.get('export') or {}}) rewritten as {dc.get('wrap', 'DiGraph')}"
+    return [f"network {{{netio.fmt(dc['desc'])}}}" + "".join(f" (+ isolated species {s})" for s in dc["desc"].get("isolated", [])), how]\
+        + ([f"foreign nodes {dc['junk']['nodes']}, foreign arcs {dc['junk']['edges']}"] if dc.get("junk") else [])\
+        + [f"analyzer option {dc.get('opt', 'default')}; linkage classes handed to _linkage_class_stoich_rank as {dc.get('iter', 'list')}"]
+
+
+def run_direct(ctx, dcs, tag):
+    if not dcs or len(ctx.violations) >= 5:
+        return
+    obs = [exec_direct(dc) for dc in dcs]  # generated cases are valid: an exception here is a harness defect
+    models = lean_models(ctx, [ob["net"] for ob in obs])
+    if models is None:
+        return
+    for dc, ob in zip(dcs, obs):
+        if ob["enc"] is not None:
+            ctx.violation("network description and the bipartite graph built from it disagree (harness assumption, not the property)",
+                          {"direct": dc}, {"detail": ob["enc"]}, no_input=True)
+            return
+        model = models[json.dumps(ob["net"], sort_keys=True)]
+        want = want_from_model(model)
+        ctx.count(f"direct[{tag}]")
+        ctx.count(f"direct:source={dc['source']}")
+        gt = (dc.get("flavor") or {}).get("gtype", "DiGraph") if dc["source"] == "net" else dc.get("wrap", "DiGraph")
+        ctx.count(f"direct:graph={gt}")
+        if dc["source"] == "net":
+            ctx.count(f"direct:orient={(dc.get('flavor') or {}).get('orient', 'conv')}")
+        else:
+            for k, v in sorted((dc.get("export") or {}).items()):
+                ctx.count(f"direct:export:{k}={v}")
+        ctx.count(f"direct:iter={dc.get('iter', 'list')}")
+        ctx.count(f"direct:opt={dc.get('opt', 'default')}")
+        if ob["undirected"]:
+            ctx.count("direct:_complex_vectors handed an undirected graph")
+        if "error" in want:
+            ctx.count("direct:error:ValueError")
+        if ob["junk"]:
+            ctx.count("direct:junk")
+            ctx.count("direct:junk:" + ("refused" if "error" in ob["B"] and "error" not in want else "answered"))
+        if "C" in ob:
+            ctx.count("direct:empty class -> " + ("0" if ob["C"]["empty"] == 0 else str(ob["C"]["empty"])))
+            if ob["C"]["fresh"] is not None:
+                ctx.count("direct:fresh analyzer -> " + ("a rank" if isinstance(ob["C"]["fresh"], int) else str(ob["C"]["fresh"])))
+            ctx.count("direct:linkage classes handed to the rank helper", len(ob["C"]["ranks"]))
+        nontrivial = "error" not in want and len(ob["net"]["reactions"]) >= 2 and want["summary"]["n_complexes"] >= 3
+        ctx.case(["c19-direct", dc], nontrivial,
+                 sample={"stream": tag, "direct": fmt_direct(dc), "summary": want.get("summary", want)}
+                 if (ob["undirected"] or ob["junk"]) and len(dc["desc"]["reactions"]) <= 2 else None)
+        msg = direct_check(ob, want)
+        if msg is None:
+            continue
+        omsg = direct_check(ob, want_from_oracle(ob["desc"]))
+        if omsg is None:
+            ctx.violation("correspondence C19: impl and model differ on a direct case although the definition oracle accepts the answer",
+                          {"direct": dc}, {"diff": msg, "stream": tag}, no_input=True)
+        else:
+            small = shrink_direct(dc)
+            smsg = direct_failure(small)
+            if smsg is None:
+                small, smsg = dc, omsg
+            sob = exec_direct(small)
+            ctx.violation("complexes / linkage classes / weak reversibility / deficiency do not follow their definitions "
+                          "(helper called directly, exporter graph, or graph with foreign nodes)", {"direct": small},
+                          {"spec": smsg, "input": fmt_direct(small),
+                           "impl": {k: ({kk: (str(vv) if kk == "complexes" else vv) for kk, vv in v.items()} if isinstance(v, dict) else v)
+                                    for k, v in sob.items() if k in ("A", "B", "C")},
+                           "definition": {k: str(v) for k, v in oracle(sob["desc"]).items() if k not in ("arcs",)}, "stream": tag},
+                          classes=("undirected-input-complex-vectors-doubled",)
+                          if sob["undirected"] and "error" not in sob["B"] and undouble(sob["B"], sob["desc"])[1] else ())
+        if len(ctx.violations) >= 5:
+            return
+
+
+JUNK_ATTRS = [{}, {"kind": "rule"}, {"bipartite": 2}, {"label": "A"}, {"kind": "note", "label": "n"}]
+
+
+def rand_junk(rnd, n_reactions):
+    """Foreign nodes / arcs: 1-2 nodes that are neither species nor reaction, each tied to 1-2 reaction nodes by arcs that
+    carry a role and a coefficient (either direction); sometimes an arc between two reaction nodes, between two species."""
+    nodes, edges = [], []
+    for k in range(rnd.choice([1, 1, 2])):
+        name = f"J{k}"
+        nodes.append([name, dict(rnd.choice(JUNK_ATTRS))])
+        for _ in range(rnd.choice([1, 1, 2])):
+            a, b = ["J", name], ["R", rnd.randrange(max(n_reactions, 1))]
+            if rnd.random() < 0.5:
+                a, b = b, a
+            edges.append([a, b, {"role": rnd.choice(["reactant", "product"]), **({"stoich": rnd.choice([1, 2, 3])} if rnd.random() < 0.7 else {})}])
+    if n_reactions >= 2 and rnd.random() < 0.4:
+        i, j = rnd.sample(range(n_reactions), 2)
+        edges.append([["R", i], ["R", j], {"role": rnd.choice(["reactant", "product"]), "stoich": 2}])
+    if rnd.random() < 0.3:
+        edges.append([["S", rnd.randrange(6)], ["S", rnd.randrange(6)], rnd.choice([{}, {"role": "product"}])])
+    return {"nodes": nodes, "edges": edges}
+
+
+def direct_case(rnd, desc, source=None, gtype=None, junk=None):
+    """One direct case for the network `desc`: source net (hand-built, random spelling x orientation) or export (the
+    library's exporter with random options), graph class `gtype` (random: DiGraph 2 : MultiDiGraph 1 : Graph 3 : MultiGraph 2)."""
+    source = source or rnd.choice(["net", "net", "export"])
+    g = gtype or rnd.choice(["DiGraph"] * 2 + ["MultiDiGraph"] + ["Graph"] * 3 + ["MultiGraph"] * 2)
+    rs = [_copy_rxn(r) for r in desc["reactions"]]
+    if g == "Graph":
+        rs = [decat(r) for r in rs]
+    dc = {"desc": {"reactions": rs, "isolated": list(desc.get("isolated", []))}, "source": source,
+          "opt": rnd.choice(["default"] * 4 + list(OPTS[1:]) + ["rank_none"]), "iter": rnd.choice(ITERS)}
+    if source == "net":
+        fl = dict(rnd.choice(FLAVORS))
+        o = rnd.choice(["conv", "s2r", "r2s", "flip", "rand"])
+        if o != "conv":
+            fl["orient"] = o
+        if o == "rand":
+            fl["oseed"] = rnd.randrange(1 << 30)
+        if g != "DiGraph":
+            fl["gtype"] = g
+        dc["flavor"] = fl
+    else:
+        if not netio.well_formed(dc["desc"]) or any(not r["r"] and not r["p"] for r in netio.reactions_of(dc["desc"])):
+            return direct_case(rnd, desc, "net", g, junk)
+        ex = {}
+        if rnd.random() < 0.7:
+            ex["integer_ids"] = rnd.random() < 0.4
+        labels = _used(dc["desc"]) | set(dc["desc"]["isolated"])
+        ids = {r["id"] for r in rs}
+        if not ex.get("integer_ids", False):
+            for key, alt in (("species_prefix", "sp_"), ("reaction_prefix", "rx_")):
+                x = rnd.random()
+                if x < 0.25:
+                    ex[key] = None
+                elif x < 0.4:
+                    ex[key] = alt
+            spn = {(ex.get("species_prefix", "S:") or "") + s for s in labels}
+            if spn & {(ex.get("reaction_prefix", "R:") or "") + i for i in ids}:  # node names would collide
+                ex.pop("species_prefix", None)
+                ex.pop("reaction_prefix", None)
+        for k in ("include_edge_id_attr", "include_mol"):
+            if rnd.random() < 0.3:
+                ex[k] = True
+        if rnd.random() < 0.3:
+            ex["include_isolated_species"] = rnd.random() < 0.5
+        dc["export"], dc["wrap"] = ex, g
+    if junk is None:
+        junk = rnd.random() < 0.25
+    if junk and rs:
+        dc["junk"] = rand_junk(rnd, len(rs))
+    return dc
+
+
 def load_regress():
     d = ROOT / "regress" / "C19"
     return [json.loads(f.read_text()) for f in sorted(d.glob("*.json"))] if d.exists() else []
@@ -1186,6 +1643,8 @@ def run(ctx):
         "sessions: the harness's own bookkeeping of the edited network (apply_desc; checked against the implementation's bipartite view of the "
         "live object at every gated query) and of which analyzer state the call protocol makes current (summary gated when the last successful "
         "compute_summary ran on the current network version, per-class list when the last compute_linkage_deficiencies used that complex graph)",
+        "direct stream: harness/props/c19.py read_graph (the network a bipartite graph spells, read with plain NetworkX calls, compared with the "
+        "description on every case); hypergraph_to_bipartite only as a producer of input graphs (what it wrote is read back by read_graph)",
     ]
     ctx.assumptions = [
         "the network is given as a CRNHyperGraph (distinct species labels, distinct reaction ids, positive integer coefficients) or as a "
@@ -1193,6 +1652,16 @@ def run(ctx):
         "not part of that convention",
         "delta >= 0 and sum(delta_l) <= delta are stated in Props/C19.lean `FullStatement` but not proved (they need a Matrix.rank argument); "
         "they are CHECKED with exact ranks on every generated case",
+        "direct stream: the docstring signatures of the anchored helpers are taken as their contract - `_complex_vectors(G: networkx.Graph)` on a "
+        "bipartite graph of any NetworkX class as given (not only on what `_as_bipartite` returns), `_linkage_class_stoich_rank(linkage_class: "
+        "Iterable[int])` on any iterable of the indices of a linkage class; for the empty class and for an analyzer that has computed nothing an "
+        "exception is accepted, a number must be the exact rank (0 for the empty class)",
+        "direct stream, graphs with foreign nodes / arcs (a node that is neither species nor reaction, an arc that does not join a species to a "
+        "reaction): the network is the species/reaction part (the convention written in stoich.build_S_minus_plus: such edges are ignored); an "
+        "analyzer that refuses such a graph with any exception is accepted, an answer must be the answer for that network",
+        "direct stream, analyzer option rank_fn=None (the caller switches the rank computation off; the code reports stoich_rank = 0 and "
+        "deficiency = n_complexes - n_linkage_classes): the reported rank is not compared with the exact rank; demanded are deficiency = "
+        "n_complexes - n_linkage_classes - reported rank and every other quantity as usual",
     ]
     ctx.gen_rule = (
         "regression corpus first; textbook networks with known deficiency (A+B<->C: 0, Edelstein: 1, futile cycles: 1 and 2, Michaelis-Menten, "
@@ -1211,7 +1680,18 @@ def run(ctx):
         "undirected Graph without a species on both sides of one reaction; in a MultiGraph such a species is two parallel edges); bip-forms = every textbook network in all 20 orientation x class "
         "combinations, one-reaction networks over 3 species (300 sampled quick / all 728 thorough), 500 / 6000 random pairs and triples from "
         "the 3-species tables, 400 / 5000 random networks, each in a random spelling x orientation x class (10 % conventional), analysed by "
-        "one analyzer with a random option (15 % a second analyzer, 10 % on a copy of the graph, 10 % a repeated query).")
+        "one analyzer with a random option (15 % a second analyzer, 10 % on a copy of the graph, 10 % a repeated query). "
+        "Direct stream (helpers `_complex_vectors` / `_is_weakly_reversible` / `_linkage_class_stoich_rank` called directly, then the full "
+        "analysis): every textbook network x 4 NetworkX classes x {hand-built graph in a random spelling and orientation, graph written by "
+        "hypergraph_to_bipartite with random options (integer_ids, species_prefix / reaction_prefix None or custom, include_edge_id_attr, "
+        "include_mol, include_isolated_species) rewritten into the class}, every textbook network once with foreign nodes, 200 / all 728 "
+        "one-reaction networks, 400 / 5000 pairs and triples from the 3-species tables, 300 / 4000 random networks, the reaction-less network "
+        "in all 8 forms; random cases: source hand-built 2 : exporter 1, class DiGraph 2 : MultiDiGraph 1 : Graph 3 : MultiGraph 2 (so 5/8 "
+        "hand the helper an undirected graph), orientation uniform over the 5 kinds, analyzer option default 4 : stoich_fn=None : stoich_fn returning "
+        "lists : custom rank_fn : rank_fn=None, 25 % with 1-2 foreign nodes (no marks / kind='rule' / "
+        "bipartite=2 / a species' label without marks) tied to reaction nodes by role-carrying arcs, 40 % of those an arc between two reaction "
+        "nodes, 30 % an arc between two species; linkage classes handed over as list / set / tuple / generator / reversed list (uniform), "
+        "plus the empty class and a fresh analyzer on every case.")
     ctx.nontrivial_rule = ("no error, >= 2 reactions and >= 3 complexes; distinct as JSON values (session queries: distinct by network, "
                            "graph spelling, analyzer option, method and whether the analyzer was reused after an edit)")
     build_and_audit_scoped(ctx, "SynKitProofs.Props.C19", "SynKitProofs/Audit/C19.lean", THEOREMS)
@@ -1219,6 +1699,7 @@ def run(ctx):
     reg = [c["case"] if "case" in c else c for c in load_regress()]
     run_cases(ctx, [c["desc"] for c in reg if "desc" in c], "regress")
     run_sessions(ctx, [c["session"] for c in reg if "session" in c], "regress")
+    run_direct(ctx, [c["direct"] for c in reg if "direct" in c], "regress")
     ctx.count("regress_cases", len(reg))
     if ctx.violations:
         ctx.obligation("correspondence: regression inputs", False)
@@ -1277,6 +1758,18 @@ def run(ctx):
         fs += [form_session(rnd, random_desc(rnd)) for _ in range(400 if ctx.quick else 5000)]
         run_sessions(ctx, fs, "bip-forms")
     if not ctx.violations:
+        # the anchored helpers called directly on the graph as given (undirected classes reach _complex_vectors' own undirected
+        # branch), graphs written by hypergraph_to_bipartite with non-default options, graphs with foreign nodes / arcs
+        ds = [direct_case(rnd, dict(d, isolated=[]), source=src, gtype=g, junk=False) for d in tb for g in GTYPES for src in ("net", "export")]
+        ds += [direct_case(rnd, dict(d, isolated=[]), junk=True) for d in tb]
+        ds += [direct_case(rnd, d) for d in (one if not ctx.quick else rnd.sample(one, 200))]
+        for _ in range(400 if ctx.quick else 5000):
+            tab = small if rnd.random() < 0.6 else full
+            ds.append(direct_case(rnd, {"reactions": with_ids([tab[i] for i in rnd.sample(range(len(tab)), rnd.choice([2, 2, 3]))]), "isolated": []}))
+        ds += [direct_case(rnd, random_desc(rnd)) for _ in range(300 if ctx.quick else 4000)]
+        ds += [direct_case(rnd, {"reactions": [], "isolated": ["A"]}, source=src, gtype=g, junk=False) for g in GTYPES for src in ("net", "export")]
+        run_direct(ctx, ds, "direct")
+    if not ctx.violations:
         # hidden state / options / rare spellings: analyzers reused across edits and calls (see "sessions" above)
         run_sessions(ctx, [replace_session(rnd, full, small) for _ in range(300 if ctx.quick else 4000)], "session-replace")
     if not ctx.violations:
@@ -1284,11 +1777,15 @@ def run(ctx):
     ctx.obligation("correspondence: complexes, complex graph, linkage classes, weak reversibility, n/l/rank/delta, per-class deficiencies == model; "
                    "reported rank == exact rank; delta >= 0 and sum(delta_l) <= delta with exact ranks; the same for analyzers reused across "
                    "in-place edits, repeated / reordered calls, constructor options and bipartite-graph spellings incl. arc orientation and "
-                   "NetworkX graph class (sessions, bip-forms)", not ctx.violations)
+                   "NetworkX graph class (sessions, bip-forms); _complex_vectors / _is_weakly_reversible / _linkage_class_stoich_rank called "
+                   "directly on graphs of every class, exporter-written graphs, graphs with foreign nodes (direct)", not ctx.violations)
 
 
 def replay(ctx, case):
     if "session" in case["case"]:
         run_sessions(ctx, [case["case"]["session"]], "replay")
+        return
+    if "direct" in case["case"]:
+        run_direct(ctx, [case["case"]["direct"]], "replay")
         return
     run_cases(ctx, [case["case"]["desc"] if "desc" in case["case"] else case["case"]], "replay")
